@@ -6,6 +6,7 @@ CONSTANTS
   Canon = TRUE
   SymKinds = {"R"}
   Kinds = {"R","C","L","DV","DI"}
+  Light = FALSE
   Ws <- WsAll
 INVARIANT Check
 CHECK_DEADLOCK FALSE
